@@ -118,7 +118,7 @@ func genC04Source(g *xast.G, c *evalCase, p *prepared) (*xast.Expr, string) {
 func TestC04(t *testing.T) {
 	runWitnesses(t, "C04")
 	nums := []string{"0", "1", "12", "0.5", ".5", "007", "1.50", "100", "3.0"}
-	runProp(t, "conv", 30000, 3000000, func(t *rapid.T) {
+	runProp(t, "conv", 240000, 3000000, func(t *rapid.T) {
 		var cls, wrap string
 		c, p := genDocCase(t, caseOpts{cfg: xmodel.GenCfg{MaxDepth: 3, MaxKids: 3, MaxTop: 1, Forest: true}, vars: true, nodeVars: true},
 			func(g *xast.G, p *prepared) *xast.Expr { return xast.Num("0") }, xast.Style{})
@@ -199,7 +199,7 @@ func TestC04(t *testing.T) {
 			t.Fatalf("C04/conv: %v", err)
 		}
 	})
-	runProp(t, "stringvalue", 3000, 100000, func(t *rapid.T) {
+	runProp(t, "stringvalue", 24000, 100000, func(t *rapid.T) {
 		c := &c10Case{Events: xmodel.Gen(t, xmodel.GenCfg{MaxDepth: 4, MaxKids: 4, MaxTop: 2, Forest: true})}
 		c04SV.run(t, c)
 	})
